@@ -1,14 +1,202 @@
-(* C14 — PCA and truncated SVD.  Property theorems only. *)
-From Coq Require Import List Arith Bool Reals.
-From SC Require Import Base.Num C03.Model C14.Model C14.ProofsBasic.
-Import ListNotations.
+(* C14 — PCA and truncated SVD.  Property theorems only (each closed by `exact <lemma>`).
 
-(* truncated SVD rejects n_components >= p (in particular k = p), PCA rejects k > p, whatever the
-   factorisation would return *)
-Theorem C14_tsvd_rejects_k_ge_p : forall (T : Type) (K : Ops T) (svd : fact) (x : dm T) (k : nat),
-  ncols x <= k -> tsvd_fit K svd x k = None.
-Proof. exact @tsvd_rejects. Qed.
+   The statements are about the executable model SC.C14.Model (transliteration of
+   src/decomposition/pca.rs and src/decomposition/svd.rs on the C03 dense-matrix model) instantiated
+   at the reals.  The SVD / symmetric EVD the code calls are ARGUMENTS of the model (`svd`, `evd`);
+   the theorems hold for every pair of such functions whose result ON THE MATRIX THE MODEL HANDS
+   THEM satisfies the factorisation's post-condition (`pca_fact_ok`, `tsvd_fact_ok`: V orthogonal,
+   G V = V diag(lambda), lambda non-increasing).  That hypothesis is what C01/C02 validate; it is
+   re-decided per run inside Coq on the implementation's own factors (C14/Corr.v,
+   corr_pca_valid / corr_tsvd_valid).
+
+   Vocabulary (SC.C14.ProofsLin / ProofsModel / ProofsPCA): matrices as functions nat -> nat -> R with
+   explicit sizes; `cen X` centred data, `std X` centred data divided by the population standard
+   deviation `col_sd` (what the code divides by), `pdata X corr` = the one the components act on;
+   `pweights X corr P` = P (covariance mode) or diag(sd) P (correlation mode); `scov n Y` = Y^T Y/(n-1)
+   the sample covariance matrix; `orthocols p k W`: the k columns of W are orthonormal;
+   `eigcols p k S W lam`: S w_c = lam_c w_c for c < k; `noninc`; `mmul`; `qf p S q` = q^T S q. *)
+From Coq Require Import List Arith Bool Reals Lia.
+From SC Require Import Base.Num C03.Model C03.ProofsBase C03.ProofsRed
+  C14.Model C14.ProofsBasic C14.ProofsLin C14.ProofsModel C14.ProofsPCA C14.ProofsTSVD C14.ProofsEx.
+Import ListNotations.
+Local Open Scope R_scope.
+Local Notation get := (Model.get ROps).
+
+(* ============================== PCA ============================== *)
+
+(* transform is the row-wise affine map x -> (x - mu) P, for every fitted state (no assumption on
+   the factorisation), and refuses any other column count *)
+Theorem C14_pca_transform_affine : forall (svd evd : fact) X k corr st X',
+  pca_fit ROps svd evd X k corr = Some st -> ncols X' = ncols X ->
+  exists T, pca_transform ROps st X' = Some T /\ nrows T = nrows X' /\ ncols T = k /\ wf T /\
+    forall r c, (r < nrows X')%nat -> (c < k)%nat ->
+      get T r c = rsum (ncols X) (fun i => (get X' r i - col_mu X i) * get (p_projection st) i c).
+Proof. exact transform_spec. Qed.
+
+Theorem C14_pca_transform_rejects_width : forall (svd evd : fact) X k corr st X',
+  pca_fit ROps svd evd X k corr = Some st -> ncols X' <> ncols X -> pca_transform ROps st X' = None.
+Proof. exact transform_rejects. Qed.
+
+(* transforming a stack of rows equals stacking the transforms *)
+Theorem C14_pca_transform_stack : forall (svd evd : fact) X k corr st A B AB TA TB,
+  pca_fit ROps svd evd X k corr = Some st ->
+  ncols A = ncols X -> ncols B = ncols X -> v_stack ROps A B = Some AB ->
+  pca_transform ROps st A = Some TA -> pca_transform ROps st B = Some TB ->
+  exists TAB, pca_transform ROps st AB = Some TAB /\ v_stack ROps TA TB = Some TAB.
+Proof. exact transform_stack. Qed.
+
+(* The main theorem, both modes (corr = false: covariance; corr = true: correlation, i.e. the same
+   on the standardised data), both internal paths, every n >= 2, p, k <= p:
+   the components W are orthonormal eigenvectors of the sample covariance matrix S of the data for
+   its k LARGEST eigenvalues lam_0 >= ... >= lam_{k-1} (lam_0..lam_{p-1} is the whole spectrum:
+   S = V diag(lam) V^T with V orthogonal and W its first k columns); the stored eigenvalues are the
+   lam up to the factor `evscale`; the scores of the training data are Y W, have zero column sums,
+   and their cross products / (n-1) are diag(lam): uncorrelated, variances lam_c, non-increasing. *)
+Theorem C14_pca_components_and_scores : forall (svd evd : fact) X k corr st,
+  (2 <= nrows X)%nat ->
+  (corr = true -> forall i, (i < ncols X)%nat -> col_sd X i <> 0) ->
+  pca_fact_ok svd evd X corr ->
+  pca_fit ROps svd evd X k corr = Some st ->
+  let n := nrows X in let p := ncols X in
+  let Y := pdata X corr in let S := scov n Y in
+  let W := pweights X corr (p_projection st) in
+  exists (lam : nat -> R) (T : dm R),
+    (k <= p)%nat /\
+    orthocols p k W /\ eigcols p k S W lam /\ noninc p lam /\
+    (forall c, (c < p)%nat -> lam c = evscale X corr * nth c (p_eigenvalues st) 0) /\
+    (exists V, fact_ok p S lam V /\ forall i c, (i < p)%nat -> (c < k)%nat -> W i c = get V i c) /\
+    pca_transform ROps st X = Some T /\ nrows T = n /\ ncols T = k /\ wf T /\
+    (forall r c, (r < n)%nat -> (c < k)%nat -> get T r c = mmul p Y W r c) /\
+    (forall c, (c < k)%nat -> rsum n (fun r => get T r c) = 0) /\
+    (forall a b, (a < k)%nat -> (b < k)%nat ->
+       rsum n (fun r => get T r a * get T r b) / INR (n - 1) = lam b * delta a b).
+Proof. exact pca_main. Qed.
+
+(* the same in the vocabulary of the dense-matrix model: column means of the scores are zero and
+   DenseMatrix::cov of the scores is diag(lam_0, ..., lam_{k-1}), lam non-increasing eigenvalues of
+   the sample covariance matrix *)
+Theorem C14_pca_scores_covariance_diagonal : forall (svd evd : fact) X k corr st,
+  (2 <= nrows X)%nat ->
+  (corr = true -> forall i, (i < ncols X)%nat -> col_sd X i <> 0) ->
+  pca_fact_ok svd evd X corr ->
+  pca_fit ROps svd evd X k corr = Some st ->
+  exists T D (lam : nat -> R),
+    pca_transform ROps st X = Some T /\ cov ROps T = Some D /\ nrows D = k /\ ncols D = k /\
+    (forall c, (c < k)%nat -> col_mu T c = 0) /\
+    (forall a b, (a < k)%nat -> (b < k)%nat -> get D a b = if Nat.eqb a b then lam a else 0) /\
+    (forall a b, (a <= b)%nat -> (b < k)%nat -> lam b <= lam a) /\
+    eigcols (ncols X) k (scov (nrows X) (pdata X corr)) (pweights X corr (p_projection st)) lam /\
+    (forall c, (c < k)%nat -> lam c = evscale X corr * nth c (p_eigenvalues st) 0).
+Proof. exact pca_scores_cov. Qed.
+
+(* `scov n (cen X)` is the matrix DenseMatrix::cov returns for the data *)
+Theorem C14_sample_covariance_is_dense_cov : forall X C i j,
+  (1 <= nrows X)%nat -> cov ROps X = Some C -> (i < ncols X)%nat -> (j < ncols X)%nat ->
+  get C i j = scov (nrows X) (cen X) i j.
+Proof. exact scov_is_cov. Qed.
+
+(* optimality: the variance captured by the k components (= lam_0 + ... + lam_{k-1}) is at least the
+   variance captured by ANY k orthonormal directions Q *)
+Theorem C14_pca_variance_captured_optimal : forall (svd evd : fact) X k corr st (Q : Mx),
+  (2 <= nrows X)%nat -> (1 <= k)%nat ->
+  (corr = true -> forall i, (i < ncols X)%nat -> col_sd X i <> 0) ->
+  pca_fact_ok svd evd X corr ->
+  pca_fit ROps svd evd X k corr = Some st ->
+  let n := nrows X in let p := ncols X in
+  let Y := pdata X corr in let W := pweights X corr (p_projection st) in
+  let pvar := fun (q : nat -> R) =>
+    rsum n (fun r => rsum p (fun i => Y r i * q i) * rsum p (fun i => Y r i * q i)) / INR (n - 1) in
+  orthocols p k Q ->
+  rsum k (fun a => pvar (fun i => Q i a)) <= rsum k (fun a => pvar (fun i => W i a)).
+Proof. exact pca_optimal. Qed.
+
+(* Ky Fan's maximum principle in general form *)
+Theorem C14_ky_fan : forall p k (G V Q : Mx) lam,
+  (1 <= k)%nat -> (k <= p)%nat ->
+  eigcols p p G V lam -> orthocols p p V -> orthorows p V -> noninc p lam ->
+  orthocols p k Q ->
+  rsum k (fun a => qf p G (fun i => Q i a)) <= rsum k lam.
+Proof. exact ky_fan. Qed.
+
+(* SVD path = EVD path: right singular vectors of the (centred) data are eigenvectors of its Gram
+   matrix with eigenvalues s^2, which is the form `pca_fact_ok` asks of the SVD *)
+Theorem C14_pca_svd_path_equiv : forall m p (X U V : Mx) (s : nat -> R),
+  (forall r i, (r < m)%nat -> (i < p)%nat -> X r i = rsum p (fun a => U r a * (s a * V i a))) ->
+  orthocols m p U -> orthocols p p V ->
+  eigcols p p (gramm m X) V (fun c => s c * s c).
+Proof. exact svd_gives_eig. Qed.
 
 Theorem C14_pca_rejects_k_gt_p : forall (T : Type) (K : Ops T) (svd evd : fact) (x : dm T) (k : nat) (c : bool),
-  ncols x < k -> pca_fit K svd evd x k c = None.
+  (ncols x < k)%nat -> pca_fit K svd evd x k c = None.
 Proof. exact @pca_rejects. Qed.
+
+(* ============================== truncated SVD ============================== *)
+
+(* components = the k leading columns of V: orthonormal eigenvectors of X^T X for its k largest
+   eigenvalues s_c^2; the columns of X C are orthogonal with squared norms s_c^2, so
+   |X C|_F^2 = s_0^2 + ... + s_{k-1}^2 *)
+Theorem C14_tsvd_components_and_energy : forall (svd : fact) X k C,
+  tsvd_fact_ok svd X -> tsvd_fit ROps svd X k = Some C ->
+  let n := nrows X in let p := ncols X in
+  exists (s : list R) (T : dm R),
+    (k < p)%nat /\ nrows C = p /\ ncols C = k /\ wf C /\
+    orthocols p k (get C) /\
+    eigcols p k (gramm n (get X)) (get C) (fun c => lam_of s c * lam_of s c) /\
+    noninc p (fun c => lam_of s c * lam_of s c) /\
+    (exists V, svd X = Some (s, V) /\ fact_ok p (gramm n (get X)) (fun c => lam_of s c * lam_of s c) V /\
+               forall i c, (i < p)%nat -> (c < k)%nat -> get C i c = get V i c) /\
+    tsvd_transform ROps C X = Some T /\ nrows T = n /\ ncols T = k /\ wf T /\
+    (forall r c, (r < n)%nat -> (c < k)%nat -> get T r c = rsum p (fun i => get X r i * get C i c)) /\
+    (forall a b, (a < k)%nat -> (b < k)%nat ->
+       rsum n (fun r => get T r a * get T r b) = lam_of s b * lam_of s b * delta a b) /\
+    rsum k (fun c => rsum n (fun r => get T r c * get T r c)) = rsum k (fun c => lam_of s c * lam_of s c).
+Proof. exact tsvd_main. Qed.
+
+Theorem C14_tsvd_energy_optimal : forall (svd : fact) X k C (Q : Mx),
+  (1 <= k)%nat -> tsvd_fact_ok svd X -> tsvd_fit ROps svd X k = Some C ->
+  let n := nrows X in let p := ncols X in
+  let energy := fun (q : nat -> R) =>
+    rsum n (fun r => rsum p (fun i => get X r i * q i) * rsum p (fun i => get X r i * q i)) in
+  orthocols p k Q ->
+  rsum k (fun a => energy (fun i => Q i a)) <= rsum k (fun a => energy (fun i => get C i a)).
+Proof. exact tsvd_optimal. Qed.
+
+(* transform is x -> x C row by row, for any components matrix; other widths are refused; stacking *)
+Theorem C14_tsvd_transform_linear : forall (C X' : dm R),
+  nrows C = ncols X' ->
+  exists T, tsvd_transform ROps C X' = Some T /\ nrows T = nrows X' /\ ncols T = ncols C /\ wf T /\
+    forall r c, (r < nrows X')%nat -> (c < ncols C)%nat ->
+      get T r c = rsum (ncols X') (fun i => get X' r i * get C i c).
+Proof. exact tsvd_transform_spec. Qed.
+
+Theorem C14_tsvd_transform_rejects_width : forall (C X' : dm R),
+  nrows C <> ncols X' -> tsvd_transform ROps C X' = None.
+Proof. exact tsvd_transform_rejects. Qed.
+
+Theorem C14_tsvd_transform_stack : forall (C A B AB TA TB : dm R),
+  nrows C = ncols A -> nrows C = ncols B -> v_stack ROps A B = Some AB ->
+  tsvd_transform ROps C A = Some TA -> tsvd_transform ROps C B = Some TB ->
+  exists TAB, tsvd_transform ROps C AB = Some TAB /\ v_stack ROps TA TB = Some TAB.
+Proof. exact tsvd_transform_stack. Qed.
+
+(* truncated SVD rejects n_components >= p (in particular k = p), whatever the SVD would return *)
+Theorem C14_tsvd_rejects_k_ge_p : forall (T : Type) (K : Ops T) (svd : fact) (x : dm T) (k : nat),
+  (ncols x <= k)%nat -> tsvd_fit K svd x k = None.
+Proof. exact @tsvd_rejects. Qed.
+
+(* ============================== the hypotheses are satisfiable ============================== *)
+(* 4 x 2 data [[2,1],[2,-1],[-2,1],[-2,-1]] (SVD path, n > p), an `svd` returning s = (4, 2), V = I:
+   the factorisation hypothesis holds, fit succeeds for every k <= 2, and there are orthonormal
+   frames to compare with *)
+Example C14_pca_hypotheses_satisfiable :
+  (2 <= nrows exX)%nat /\ pca_fact_ok ex_svd ex_evd exX false /\
+  (forall k, (k <= 2)%nat -> exists st, pca_fit ROps ex_svd ex_evd exX k false = Some st) /\
+  orthocols (ncols exX) 1 (fun i _ => if Nat.eqb i 1 then 1 else 0).
+Proof.
+  split; [cbn; lia|]. split; [exact ex_pca_fact_ok|]. split; [exact ex_pca_fit_some|exact ex_frame].
+Qed.
+
+Example C14_tsvd_hypotheses_satisfiable :
+  tsvd_fact_ok ex_svd exX /\ (exists C, tsvd_fit ROps ex_svd exX 1 = Some C) /\
+  orthocols (ncols exX) 1 (fun i _ => if Nat.eqb i 1 then 1 else 0).
+Proof. split; [exact ex_tsvd_fact_ok|]. split; [exact ex_tsvd_fit_some|exact ex_frame]. Qed.
